@@ -281,6 +281,48 @@ def derived_check(case):
     return Res(v, o=case[:3], tr=ntr)
 
 
+# ------------------------------------------------------------------ parse, use through the Reader, write, parse
+def used_cases(tier, seed):
+    return [("imec", k, st) for k in ("3A", "3B2", "NP2.1", "NP2.4b", "NPultra") for st in ("ap", "lf")] + [("nidq", 1, 1), ("nidq", 0, 2), ("nidq", 2, 0)]
+
+
+def used_check(case):
+    d = synth.proc_scratch()
+    typ, a, b = case
+    if typ == "imec":
+        fam = synth.family(a)
+        sites = [(0, i // 2, (2, 0)[i % 2] if (i // 2) % 2 == 0 else (3, 1)[i % 2]) for i in range(4)] if fam == "NP1" else \
+            ([(0, i // 2, i % 2) for i in range(4)] if fam == "NP2" else [(0, 0, i) for i in range(4)])
+        items = synth.meta_items(a, sites, 1000, stream=b)
+        f1 = os.path.join(d, "use_g0_t0.imec0.%s.meta" % b)
+        f2 = os.path.join(d, "use2_g0_t0.imec0.%s.meta" % b)
+    else:
+        items = synth.nidq_items(1000, mn=a, ma=b, xa=1, dw=1, mngain=200, magain=10)
+        f1 = os.path.join(d, "use_g0_t0.nidq.meta")
+        f2 = os.path.join(d, "use2_g0_t0.nidq.meta")
+    open(f1, "w").write(synth.meta_text(items))
+    v = []
+    fresh = dict(spikeglx.read_meta_data(f1))
+    sr = spikeglx.Reader(f1)
+    q1 = (sr.type, sr.version, sr.nc, sr.nsync, float(sr.fs), sr.ns, np.asarray(sr.sample2volts).tolist(), None if sr.geometry is None else np.asarray(sr.geometry["x"]).tolist())
+    if not _eq(dict(sr.meta), fresh):
+        diff = sorted(k for k in set(fresh) | set(sr.meta) if fresh.get(k) != sr.meta.get(k))
+        v.append(("used:meta-modified", "%r: deriving the acquisition parameters changed the parsed dictionary on %r" % (case, diff)))
+    spikeglx.write_meta_data(sr.meta, f2)
+    try:
+        again = dict(spikeglx.read_meta_data(f2))
+        sr2 = spikeglx.Reader(f2)
+        q2 = (sr2.type, sr2.version, sr2.nc, sr2.nsync, float(sr2.fs), sr2.ns, np.asarray(sr2.sample2volts).tolist(), None if sr2.geometry is None else np.asarray(sr2.geometry["x"]).tolist())
+        if not _eq(again, fresh):
+            diff = sorted(k for k in set(fresh) | set(again) if fresh.get(k) != again.get(k))
+            v.append(("used:roundtrip", "%r: parse, use, write, parse differs from the first parse on %r: %r" % (case, diff, [(fresh.get(k), again.get(k)) for k in diff][:3])))
+        if q1 != q2:
+            v.append(("used:derived", "%r: the re-written file gives other derived quantities: %r vs %r" % (case, q2[:6], q1[:6])))
+    except Exception as e:
+        v.append(("used:exc:%s" % type(e).__name__, "%r: the file written after use cannot be read back: %s" % (case, e)))
+    return Res(v, o=typ, tr=4)
+
+
 # ------------------------------------------------------------------ shipped fixtures round-trip
 def fixture_cases(tier, seed):
     fx = "/repo/src/tests/fixtures"
@@ -324,6 +366,7 @@ CHECK = {
         Clause("scalars", "decimal scalars mant x 10^e written positionally", cases=scalar_cases, check=scalar_check),
         Clause("intlists", "integer lists with elements from 0 to 2^53", cases=intlist_cases, check=intlist_check),
         Clause("derived", "derived quantities for every kind/stream/gain pair/count", cases=derived_cases, check=derived_check),
+        Clause("used", "parse, derive through the Reader, write, parse", cases=used_cases, check=used_check),
         Clause("fixtures", "shipped .meta files round-trip", cases=fixture_cases, check=fixture_check),
     ],
 }
